@@ -70,10 +70,10 @@ CHECKS.update({
             "carriers (YAML / JSON / files / xarray attributes) are decoded by third-party code and are covered by the correspondence "
             "only (12 carriers x 4 layouts on generated configurations).",
             "Lean 4 proof (refinement: typed configuration -> written tree -> calls) + differential correspondence over carriers"),
-    "C15": ("Theorems C15_data_partial, C15_time, C15_factor, C15_main (+ witness C15_data_bad_witness for known finding F-11): branch "
+    "C15": ("Theorems C15_data, C15_time, C15_factor, C15_main (+ regression witness C15_data_bad_witness for fixed finding F-11): branch "
             "logic of the input normalisation; that numpy / pandas coercions behave as modelled is checked by running every carrier of "
             "each logical case on the real functions (13 data carriers, 11 time carriers, list / tuple spans).",
-            "Lean 4 proof (normalisation factors through the denotation; partial: F-11 class excluded) + differential correspondence"),
+            "Lean 4 proof (normalisation factors through the denotation) + differential correspondence over all carriers"),
     "C16": ("Theorem C16_main (from C16_gross, _valid, _location, _climatology, _spike, _roc, _flat, _atten, _density, _speed): for every "
             "ordered pair of parameter sets accepted by IoosQc.stricter no flag improves and the UNKNOWN / MISSING set is unchanged; the "
             "same predicate is evaluated on pairs of runs of the real functions.",
